@@ -154,9 +154,9 @@ func (w *world) firstFunc() resource.EntryFunc {
 	}
 }
 
-func newWorld(v *vrt.Ctx, which int, persisted, first bool) *world {
+func newWorld(v *vrt.Ctx, which int, persisted, first, resetOnEmpty bool) *world {
 	w := &world{v: v, rs: apps.Get(which), persisted: persisted, first: first}
-	w.cfg = engine.Config{Root: "root", FlagCount: 4, SessionId: "s1", OutputSize: 60}
+	w.cfg = engine.Config{Root: "root", FlagCount: 4, SessionId: "s1", OutputSize: 60, ResetOnEmptyInput: resetOnEmpty}
 	if persisted {
 		w.store = mem.NewMemDb()
 		w.store.Connect(context.Background(), "")
@@ -192,8 +192,11 @@ func TwoRun(v *vrt.Ctx) {
 	if first {
 		v.Finding("F16-first-function-sees-refused-input", true)
 	}
-	ref := newWorld(v, which, persisted, first)
-	sub := newWorld(v, which, persisted, first)
+	// with the engine configured to start over on empty input: only the empty
+	// input does that, a refused blank one does nothing
+	resetOnEmpty := v.Choice("reset-on-empty-input", 2) == 1
+	ref := newWorld(v, which, persisted, first, resetOnEmpty)
+	sub := newWorld(v, which, persisted, first, resetOnEmpty)
 	ended := false
 	for i := 0; i <= k && !ended; i++ {
 		if i == at {
@@ -227,7 +230,7 @@ func TwoRun(v *vrt.Ctx) {
 // FlushFirst: asking for output before anything was executed is refused
 // without side effects.
 func FlushFirst(v *vrt.Ctx) {
-	w := newWorld(v, v.Param("app"), false, false)
+	w := newWorld(v, v.Param("app"), false, false, false)
 	ctx := context.Background()
 	before := Take(w.st, w.ca)
 	sink := &app.Sink{}
